@@ -10,7 +10,9 @@ pub enum S {
     Bind(String, String),
     /// `if c { a } else { b }`; `outs` = the variables (declared before the `if`) assigned in a
     /// branch, plus the result temporary of an `if` expression.
-    If { c: String, a: Vec<S>, b: Vec<S>, outs: Vec<String> },
+    /// `m` = None: `c` is a bool; `m` = Some((pa, pb)): `match c with pa => a | pb => b end`
+    /// (`if let` / `while let` / `?` on an Option).
+    If { c: String, m: Option<(String, String)>, a: Vec<S>, b: Vec<S>, outs: Vec<String> },
     /// leave the function with this (monadic) term
     Ret(String),
     /// `let pat = scrut?` : `match scrut with None => <none> | Some pat => rest end`
@@ -18,14 +20,59 @@ pub enum S {
     /// `while c { body }` with `fuel` iterations at most; `vars` = the loop-carried variables.
     /// `cpre` computes the condition (effects allowed), `c` is the condition
     While { vars: Vec<String>, cpre: Vec<S>, c: String, body: Vec<S>, fuel: u32 },
+    /// a loop over the SrcLib combinators (rule 16).  `vars` = the loop state, `res` = the
+    /// temporary that receives the result of the combinator.
+    /// `tys` = the Gallina types of `vars` (the combinators get `(St := ..)` so that the body is
+    /// elaborated at a known state type).
+    Loop { id: usize, kind: LoopKind, vars: Vec<String>, tys: Vec<String>, body: Vec<S>, res: String },
+    /// leave the body of loop `target`: `break` (Break) or end of iteration (Next is only implicit)
+    Exit { target: usize },
 }
 
+#[derive(Clone, Debug)]
+pub enum LoopKind {
+    /// `while` / `while let` / `loop` with a fuel expression
+    Fuel(String),
+    /// `for pat in list` (the iterator is consumed)
+    For { list: String, pat: String },
+    /// `for pat in &mut it`: the unconsumed rest is rebound to `it`
+    ForIter { it: String, pat: String },
+    /// `for xi in x.iter_mut()`: `vec` = the vector variable, `elem` = the element variable
+    ForMut { vec: String, elem: String },
+}
+
+/// may the statement list leave the straight-line flow (`return`, `?`, `break`, or a loop that
+/// can be left by a `return` / labelled `break`)
 pub fn has_ret(ss: &[S]) -> bool {
     ss.iter().any(|s| match s {
         S::Ret(_) => true,
+        S::Exit { .. } => true,
         S::MatchOpt { .. } => true,
         S::If { a, b, .. } => has_ret(a) || has_ret(b),
         S::While { cpre, body, .. } => has_ret(cpre) || has_ret(body),
+        S::Loop { id, body, .. } => escapes(body, *id),
+        _ => false,
+    })
+}
+
+/// does the body of loop `id` contain a `return` / `?` or an exit of a loop that encloses `id`
+/// (then the loop can end with the payload of a `Return`)
+pub fn escapes(ss: &[S], id: usize) -> bool {
+    escapes_from(ss, &mut vec![id])
+}
+
+/// `ids` = the loops (outermost first) whose `Break` is not an escape
+fn escapes_from(ss: &[S], ids: &mut Vec<usize>) -> bool {
+    ss.iter().any(|s| match s {
+        S::Ret(_) | S::MatchOpt { .. } => true,
+        S::Exit { target } => !ids.contains(target),
+        S::If { a, b, .. } => escapes_from(a, ids) || escapes_from(b, ids),
+        S::Loop { id, body, .. } => {
+            ids.push(*id);
+            let r = escapes_from(body, ids);
+            ids.pop();
+            r
+        }
         _ => false,
     })
 }
@@ -33,6 +80,7 @@ pub fn has_ret(ss: &[S]) -> bool {
 pub fn diverges(ss: &[S]) -> bool {
     match ss.last() {
         Some(S::Ret(_)) => true,
+        Some(S::Exit { .. }) => true,
         Some(S::If { a, b, .. }) => diverges(a) && diverges(b),
         _ => false,
     }
@@ -62,6 +110,15 @@ fn fun_pat(vs: &[String]) -> String {
     }
 }
 
+/// pattern of a `match` branch (no quote)
+fn match_pat(vs: &[String]) -> String {
+    match vs.len() {
+        0 => "_".into(),
+        1 => vs[0].clone(),
+        _ => format!("({})", vs.join(", ")),
+    }
+}
+
 fn all_pure(ss: &[S]) -> bool {
     ss.iter().all(|s| matches!(s, S::Let(..)))
 }
@@ -69,6 +126,8 @@ fn all_pure(ss: &[S]) -> bool {
 pub struct Emitter {
     pub kcount: usize,
     pub errors: Vec<String>,
+    /// the enclosing loops (id, state variables), innermost last
+    loops: Vec<(usize, Vec<String>)>,
 }
 
 fn pad(n: usize) -> String {
@@ -80,9 +139,26 @@ fn simple_app(m: &str) -> bool {
     !(t.starts_with("if ") || t.starts_with("match ") || t.starts_with("let ") || t.contains('\n'))
 }
 
+/// the conditional `if c then (va) else (vb)` / `match c with pa => (va) | pb => (vb) end`
+fn ite(c: &str, m: &Option<(String, String)>, va: &str, vb: &str, p: &str) -> String {
+    match m {
+        None => format!("if {c} then (\n{va}\n{p}) else (\n{vb}\n{p})"),
+        Some((pa, pb)) => format!("match {c} with {pa} => (\n{va}\n{p}) | {pb} => (\n{vb}\n{p}) end"),
+    }
+}
+
 impl Emitter {
     pub fn new() -> Self {
-        Emitter { kcount: 0, errors: vec![] }
+        Emitter { kcount: 0, errors: vec![], loops: vec![] }
+    }
+
+    /// `Ok x` leaving `n` loops: `Ok (Return (.. x))`
+    fn wrap_return(&self, payload: &str, n: usize) -> String {
+        let mut t = payload.trim().to_string();
+        for _ in 0..n {
+            t = format!("(Return {})", paren(&t));
+        }
+        format!("Ok {}", paren(&t))
     }
 
     /// Print `ss`, continuing with the term `ft` ("fall-through") when the end of the list is
@@ -106,7 +182,33 @@ impl Emitter {
                 if !rest.is_empty() {
                     self.errors.push("unreachable statements after `return`".into());
                 }
-                format!("{}{}", pad(ind), t)
+                if self.loops.is_empty() {
+                    format!("{}{}", pad(ind), t)
+                } else {
+                    // inside loops the function result is the payload of `Return`
+                    match t.strip_prefix("Ok ") {
+                        Some(x) => format!("{}{}", pad(ind), self.wrap_return(x, self.loops.len())),
+                        None => {
+                            self.errors.push("internal: `return` term without `Ok`".into());
+                            String::new()
+                        }
+                    }
+                }
+            }
+            S::Exit { target } => {
+                if !rest.is_empty() {
+                    self.errors.push("unreachable statements after `break`".into());
+                }
+                match self.loops.iter().rposition(|(id, _)| id == target) {
+                    Some(i) => {
+                        let brk = format!("Break {}", paren(&tuple_val(&self.loops[i].1)));
+                        format!("{}{}", pad(ind), self.wrap_return(&brk, self.loops.len() - 1 - i))
+                    }
+                    None => {
+                        self.errors.push("internal: `break` outside its loop".into());
+                        String::new()
+                    }
+                }
             }
             S::MatchOpt { scrut, pat, none } => {
                 let n = self.emit(none, "(* unreachable *)", ind + 4);
@@ -116,7 +218,7 @@ impl Emitter {
                     p = pad(ind)
                 )
             }
-            S::If { c, a, b, outs } => {
+            S::If { c, m, a, b, outs } => {
                 let ra = has_ret(a);
                 let rb = has_ret(b);
                 if !ra && !rb {
@@ -126,23 +228,17 @@ impl Emitter {
                         let vb = self.emit(b, &tuple_val(outs), ind + 4);
                         let r = self.emit(rest, ft, ind);
                         let pat = if outs.len() == 1 { outs[0].clone() } else { tuple_pat(outs) };
-                        return format!(
-                            "{p}let {pat} := (if {c} then (\n{va}\n{p}) else (\n{vb}\n{p})) in\n{r}",
-                            p = pad(ind)
-                        );
+                        return format!("{p}let {pat} := ({i}) in\n{r}", p = pad(ind), i = ite(c, m, &va, &vb, &pad(ind)));
                     }
                     let okv = format!("Ok {}", paren(&tuple_val(outs)));
                     let va = self.emit(a, &okv, ind + 4);
                     let vb = self.emit(b, &okv, ind + 4);
                     let r = self.emit(rest, ft, ind);
+                    let i = ite(c, m, &va, &vb, &pad(ind));
                     if outs.is_empty() {
-                        format!("{p}(if {c} then (\n{va}\n{p}) else (\n{vb}\n{p})) ;;;\n{r}", p = pad(ind))
+                        format!("{p}({i}) ;;;\n{r}", p = pad(ind))
                     } else {
-                        format!(
-                            "{p}{pat} <- (if {c} then (\n{va}\n{p}) else (\n{vb}\n{p})) ;;\n{r}",
-                            p = pad(ind),
-                            pat = tuple_pat(outs)
-                        )
+                        format!("{p}{pat} <- ({i}) ;;\n{r}", p = pad(ind), pat = tuple_pat(outs))
                     }
                 } else if diverges(a) || diverges(b) {
                     // a branch always returns: the rest of the block belongs to the other branch
@@ -164,7 +260,7 @@ impl Emitter {
                         va = self.emit(&aa, ft, ind + 4);
                         vb = self.emit(b, "(* unreachable *)", ind + 4);
                     }
-                    format!("{p}if {c} then (\n{va}\n{p}) else (\n{vb}\n{p})", p = pad(ind))
+                    format!("{p}{i}", p = pad(ind), i = ite(c, m, &va, &vb, &pad(ind)))
                 } else {
                     // a branch may return or fall through: the rest becomes a join point
                     self.kcount += 1;
@@ -180,10 +276,7 @@ impl Emitter {
                     };
                     let va = self.emit(a, &kcall, ind + 4);
                     let vb = self.emit(b, &kcall, ind + 4);
-                    format!(
-                        "{p}let {k} := {kdef} in\n{p}if {c} then (\n{va}\n{p}) else (\n{vb}\n{p})",
-                        p = pad(ind)
-                    )
+                    format!("{p}let {k} := {kdef} in\n{p}{i}", p = pad(ind), i = ite(c, m, &va, &vb, &pad(ind)))
                 }
             }
             S::While { vars, cpre, c, body, fuel } => {
@@ -201,6 +294,53 @@ impl Emitter {
                     fp = fun_pat(vars),
                     init = paren(&tuple_val(vars)),
                 )
+            }
+            S::Loop { id, kind, vars, tys, body, res } => {
+                let p = pad(ind);
+                let state = tuple_val(vars);
+                let fp = fun_pat(vars);
+                let st = match tys.len() {
+                    0 => "unit".to_string(),
+                    1 => tys[0].clone(),
+                    _ => format!("({})", tys.join(" * ")),
+                };
+                if let LoopKind::ForMut { vec, elem } = kind {
+                    // no `break` / `return` inside: the body returns (state, new element)
+                    if has_ret(body) {
+                        self.errors.push("`break` / `return` / `?` inside a loop over `iter_mut()` is not supported".into());
+                    }
+                    let saved = std::mem::take(&mut self.loops);
+                    let vb = self.emit(body, &format!("Ok ({}, {})", state, elem), ind + 6);
+                    self.loops = saved;
+                    let r = self.emit(rest, ft, ind);
+                    return format!(
+                        "{p}'({sp}, {res}) <- rs_for_mut (St := {st}) (vl {vec}) (fun {fp} {elem} =>\n{vb})\n{p}    {state} ;;\n{p}let {vec} := vset_list {vec} {res} in\n{r}",
+                        sp = match_pat(vars),
+                    );
+                }
+                let esc = escapes(body, *id);
+                self.loops.push((*id, vars.clone()));
+                let vb = self.emit(body, &format!("Ok (Next {})", paren(&state)), ind + 6);
+                self.loops.pop();
+                let rty = if esc { format!(" (St := {})", st) } else { format!(" (St := {}) (R := Empty_set)", st) };
+                let (head, after) = match kind {
+                    LoopKind::Fuel(f) => (format!("rs_loop{rty} {} (fun {fp} =>", paren(f)), match_pat(vars)),
+                    LoopKind::For { list, pat } => (format!("rs_for{rty} {} (fun {fp} {pat} =>", paren(list)), match_pat(vars)),
+                    LoopKind::ForIter { it, pat } => (
+                        format!("rs_for_iter{rty} {it} (fun {fp} {pat} =>"),
+                        format!("({}, {})", match_pat(vars), it),
+                    ),
+                    LoopKind::ForMut { .. } => unreachable!(),
+                };
+                let call = format!("{p}{res} <- {head}\n{vb})\n{p}    {state} ;;\n");
+                if esc {
+                    let r = self.emit(rest, ft, ind + 4);
+                    format!("{call}{p}match {res} with\n{p}| inr r => Ok r\n{p}| inl {after} =>\n{r}\n{p}end")
+                } else {
+                    let r = self.emit(rest, ft, ind);
+                    let pat = if after.starts_with('(') { format!("'{}", after) } else { after };
+                    format!("{call}{p}let {pat} := no_return {res} in\n{r}")
+                }
             }
         }
     }
